@@ -1,6 +1,6 @@
 SPECIFICATION Spec
 CONSTANTS
- MaxTok = 16
+ MaxTok = 18
  TokSet = {1, 7}
 ACTION_CONSTRAINT Emit
 INVARIANTS NoDotDot TwoFormulations Idempotent SegmentsSafe SplitOK Shrinks
